@@ -145,7 +145,7 @@ pub open spec fn accepted(q0: Seq<Entry>, q1: Seq<Entry>, e: Entry) -> bool {
 }
 pub proof fn lemma_insert_keeps_inv(q0: Seq<Entry>, q1: Seq<Entry>, e: Entry, now: u64)
     requires
-        queue_inv(q0, now), accepted(q0, q1, e), sorted(q1),
+        queue_inv(q0, now), accepted(q0, q1, e), sorted(q1),   //@ C08,C01 #insertion-keeps-the-invariant
         e.time > now,                   //@ C08,C01 #deadline-strictly-in-the-future
         e.period != Some(0nat),         //@ C08 #period-non-zero
     ensures queue_inv(q1, now)
@@ -186,8 +186,10 @@ impl GlobalScheduler {
             // ... and the period, if any, is non-zero
             res is Ok ==> action.period() != Some(0nat),                                                          //@ C08 #period-non-zero
             // an accepted request queues exactly one entry keyed (deadline, origin)
-            res is Ok ==> accepted(old(self).scheduler_queue.view(), final(self).scheduler_queue.view(),          //@ C08,C01,C07 #queues-exactly-the-request
-                entry_of((deadline.into_time_spec(MonotonicTime { t: old(self).time.val() }), origin_id), action)),   //@ C08,C01,C07 #queues-exactly-the-request
+            res is Ok ==> exists|o: usize| #![trigger entry_of((deadline.into_time_spec(MonotonicTime { t: old(self).time.val() }), o), action)] accepted(old(self).scheduler_queue.view(), final(self).scheduler_queue.view(),   //@ C08,C01 #queued-at-its-deadline
+                entry_of((deadline.into_time_spec(MonotonicTime { t: old(self).time.val() }), o), action)),             //@ C08,C01 #queued-at-its-deadline
+            res is Ok ==> exists|t: MonotonicTime| #![trigger entry_of((t, origin_id), action)] accepted(old(self).scheduler_queue.view(), final(self).scheduler_queue.view(),   //@ C07 #queued-under-its-origin
+                entry_of((t, origin_id), action)),                                                                    //@ C07 #queued-under-its-origin
             // and conversely a valid request is accepted
             (deadline.into_time_spec(MonotonicTime { t: old(self).time.val() }).t > old(self).time.val()
                 && action.period() != Some(0nat)) ==> res is Ok,                                                  //@ C08 #valid-request-accepted
@@ -253,9 +255,10 @@ impl GlobalScheduler {
             res is Err ==> final(self).scheduler_queue.view() == old(self).scheduler_queue.view(),                 //@ C08 #rejected-has-no-effect
             res is Ok ==> deadline.into_time_spec(MonotonicTime { t: old(self).time.val() }).t > old(self).time.val(),   //@ C08,C01 #deadline-strictly-in-the-future
             // an accepted request queues exactly one entry keyed (deadline, origin) carrying the requested period
-            res is Ok ==> exists|a: Action| #![trigger a.period()] accepted(old(self).scheduler_queue.view(), final(self).scheduler_queue.view(), entry_of((deadline.into_time_spec(MonotonicTime { t: old(self).time.val() }), origin_id), a)),   //@ C08,C01,C07 #queues-exactly-the-request
-            res is Ok ==> exists|a: Action| #![trigger a.period()] a.period() == None::<nat> && accepted(old(self).scheduler_queue.view(), final(self).scheduler_queue.view(), entry_of((deadline.into_time_spec(MonotonicTime { t: old(self).time.val() }), origin_id), a)),   //@ C10 #queued-with-the-requested-period
-            res is Ok ==> exists|a: Action| #![trigger a.period()] a.key_id() is None && accepted(old(self).scheduler_queue.view(), final(self).scheduler_queue.view(), entry_of((deadline.into_time_spec(MonotonicTime { t: old(self).time.val() }), origin_id), a)),   //@ C09 #returned-key-cancels-the-queued-action
+            res is Ok ==> exists|a: Action, o: usize| #![trigger entry_of((deadline.into_time_spec(MonotonicTime { t: old(self).time.val() }), o), a)] accepted(old(self).scheduler_queue.view(), final(self).scheduler_queue.view(), entry_of((deadline.into_time_spec(MonotonicTime { t: old(self).time.val() }), o), a)),   //@ C08,C01 #queued-at-its-deadline
+            res is Ok ==> exists|a: Action, t: MonotonicTime| #![trigger entry_of((t, origin_id), a)] accepted(old(self).scheduler_queue.view(), final(self).scheduler_queue.view(), entry_of((t, origin_id), a)),   //@ C07 #queued-under-its-origin
+            res is Ok ==> exists|a: Action, qk: (MonotonicTime, usize)| #![trigger entry_of(qk, a)] a.period() == None::<nat> && accepted(old(self).scheduler_queue.view(), final(self).scheduler_queue.view(), entry_of(qk, a)),   //@ C10 #queued-with-the-requested-period
+            res is Ok ==> exists|a: Action, qk: (MonotonicTime, usize)| #![trigger entry_of(qk, a)] a.key_id() is None && accepted(old(self).scheduler_queue.view(), final(self).scheduler_queue.view(), entry_of(qk, a)),   //@ C09 #returned-key-cancels-the-queued-action
             (deadline.into_time_spec(MonotonicTime { t: old(self).time.val() }).t > old(self).time.val()) ==> res is Ok,   //@ C08 #valid-request-accepted
             sorted(final(self).scheduler_queue.view()),
             all_later(final(self).scheduler_queue.view(), final(self).time.val()),                                //@ C01 #pending-strictly-later
@@ -278,7 +281,6 @@ impl GlobalScheduler {
         //@[
         proof {
             lemma_insert_keeps_inv(q0, self.scheduler_queue.view(), entry_of((time, origin_id), action), self.time.val());
-            assert(accepted(q0, self.scheduler_queue.view(), entry_of((time, origin_id), action)));
         }
         //@]
 
@@ -308,9 +310,10 @@ impl GlobalScheduler {
             res is Err ==> final(self).scheduler_queue.view() == old(self).scheduler_queue.view(),                 //@ C08 #rejected-has-no-effect
             res is Ok ==> deadline.into_time_spec(MonotonicTime { t: old(self).time.val() }).t > old(self).time.val(),   //@ C08,C01 #deadline-strictly-in-the-future
             // an accepted request queues exactly one entry keyed (deadline, origin) carrying the requested period and observing the returned key
-            res is Ok ==> exists|a: Action| #![trigger a.period()] accepted(old(self).scheduler_queue.view(), final(self).scheduler_queue.view(), entry_of((deadline.into_time_spec(MonotonicTime { t: old(self).time.val() }), origin_id), a)),   //@ C08,C01,C07 #queues-exactly-the-request
-            res is Ok ==> exists|a: Action| #![trigger a.period()] a.period() == None::<nat> && accepted(old(self).scheduler_queue.view(), final(self).scheduler_queue.view(), entry_of((deadline.into_time_spec(MonotonicTime { t: old(self).time.val() }), origin_id), a)),   //@ C10 #queued-with-the-requested-period
-            res matches Ok(k) ==> exists|a: Action| #![trigger a.period()] a.key_id() == Some(k.id()) && a.model_rechecks_key() && accepted(old(self).scheduler_queue.view(), final(self).scheduler_queue.view(), entry_of((deadline.into_time_spec(MonotonicTime { t: old(self).time.val() }), origin_id), a)),   //@ C09 #returned-key-cancels-the-queued-action-up-to-the-model
+            res is Ok ==> exists|a: Action, o: usize| #![trigger entry_of((deadline.into_time_spec(MonotonicTime { t: old(self).time.val() }), o), a)] accepted(old(self).scheduler_queue.view(), final(self).scheduler_queue.view(), entry_of((deadline.into_time_spec(MonotonicTime { t: old(self).time.val() }), o), a)),   //@ C08,C01 #queued-at-its-deadline
+            res is Ok ==> exists|a: Action, t: MonotonicTime| #![trigger entry_of((t, origin_id), a)] accepted(old(self).scheduler_queue.view(), final(self).scheduler_queue.view(), entry_of((t, origin_id), a)),   //@ C07 #queued-under-its-origin
+            res is Ok ==> exists|a: Action, qk: (MonotonicTime, usize)| #![trigger entry_of(qk, a)] a.period() == None::<nat> && accepted(old(self).scheduler_queue.view(), final(self).scheduler_queue.view(), entry_of(qk, a)),   //@ C10 #queued-with-the-requested-period
+            res matches Ok(k) ==> exists|a: Action, qk: (MonotonicTime, usize)| #![trigger entry_of(qk, a)] a.key_id() == Some(k.id()) && a.model_rechecks_key() && accepted(old(self).scheduler_queue.view(), final(self).scheduler_queue.view(), entry_of(qk, a)),   //@ C09 #returned-key-cancels-the-queued-action-up-to-the-model
             (deadline.into_time_spec(MonotonicTime { t: old(self).time.val() }).t > old(self).time.val()) ==> res is Ok,   //@ C08 #valid-request-accepted
             sorted(final(self).scheduler_queue.view()),
             all_later(final(self).scheduler_queue.view(), final(self).time.val()),                                //@ C01 #pending-strictly-later
@@ -334,7 +337,6 @@ impl GlobalScheduler {
         //@[
         proof {
             lemma_insert_keeps_inv(q0, self.scheduler_queue.view(), entry_of((time, origin_id), action), self.time.val());
-            assert(accepted(q0, self.scheduler_queue.view(), entry_of((time, origin_id), action)));
         }
         //@]
 
@@ -367,9 +369,10 @@ impl GlobalScheduler {
             res is Ok ==> dur_ns(period) != 0,                                                                      //@ C08 #period-non-zero
             dur_ns(period) == 0 ==> (res matches Err(SchedulingError::NullRepetitionPeriod)),                       //@ C08 #zero-period-rejected
             // an accepted request queues exactly one entry keyed (deadline, origin) carrying the requested period
-            res is Ok ==> exists|a: Action| #![trigger a.period()] accepted(old(self).scheduler_queue.view(), final(self).scheduler_queue.view(), entry_of((deadline.into_time_spec(MonotonicTime { t: old(self).time.val() }), origin_id), a)),   //@ C08,C01,C07 #queues-exactly-the-request
-            res is Ok ==> exists|a: Action| #![trigger a.period()] a.period() == Some(dur_ns(period)) && accepted(old(self).scheduler_queue.view(), final(self).scheduler_queue.view(), entry_of((deadline.into_time_spec(MonotonicTime { t: old(self).time.val() }), origin_id), a)),   //@ C10 #queued-with-the-requested-period
-            res is Ok ==> exists|a: Action| #![trigger a.period()] a.key_id() is None && accepted(old(self).scheduler_queue.view(), final(self).scheduler_queue.view(), entry_of((deadline.into_time_spec(MonotonicTime { t: old(self).time.val() }), origin_id), a)),   //@ C09 #returned-key-cancels-the-queued-action
+            res is Ok ==> exists|a: Action, o: usize| #![trigger entry_of((deadline.into_time_spec(MonotonicTime { t: old(self).time.val() }), o), a)] accepted(old(self).scheduler_queue.view(), final(self).scheduler_queue.view(), entry_of((deadline.into_time_spec(MonotonicTime { t: old(self).time.val() }), o), a)),   //@ C08,C01 #queued-at-its-deadline
+            res is Ok ==> exists|a: Action, t: MonotonicTime| #![trigger entry_of((t, origin_id), a)] accepted(old(self).scheduler_queue.view(), final(self).scheduler_queue.view(), entry_of((t, origin_id), a)),   //@ C07 #queued-under-its-origin
+            res is Ok ==> exists|a: Action, qk: (MonotonicTime, usize)| #![trigger entry_of(qk, a)] a.period() == Some(dur_ns(period)) && accepted(old(self).scheduler_queue.view(), final(self).scheduler_queue.view(), entry_of(qk, a)),   //@ C10 #queued-with-the-requested-period
+            res is Ok ==> exists|a: Action, qk: (MonotonicTime, usize)| #![trigger entry_of(qk, a)] a.key_id() is None && accepted(old(self).scheduler_queue.view(), final(self).scheduler_queue.view(), entry_of(qk, a)),   //@ C09 #returned-key-cancels-the-queued-action
             (deadline.into_time_spec(MonotonicTime { t: old(self).time.val() }).t > old(self).time.val() && dur_ns(period) != 0) ==> res is Ok,   //@ C08 #valid-request-accepted
             sorted(final(self).scheduler_queue.view()),
             all_later(final(self).scheduler_queue.view(), final(self).time.val()),                                //@ C01 #pending-strictly-later
@@ -395,7 +398,6 @@ impl GlobalScheduler {
         //@[
         proof {
             lemma_insert_keeps_inv(q0, self.scheduler_queue.view(), entry_of((time, origin_id), action), self.time.val());
-            assert(accepted(q0, self.scheduler_queue.view(), entry_of((time, origin_id), action)));
         }
         //@]
 
@@ -428,9 +430,10 @@ impl GlobalScheduler {
             res is Ok ==> dur_ns(period) != 0,                                                                      //@ C08 #period-non-zero
             dur_ns(period) == 0 ==> (res matches Err(SchedulingError::NullRepetitionPeriod)),                       //@ C08 #zero-period-rejected
             // an accepted request queues exactly one entry keyed (deadline, origin) carrying the requested period and observing the returned key
-            res is Ok ==> exists|a: Action| #![trigger a.period()] accepted(old(self).scheduler_queue.view(), final(self).scheduler_queue.view(), entry_of((deadline.into_time_spec(MonotonicTime { t: old(self).time.val() }), origin_id), a)),   //@ C08,C01,C07 #queues-exactly-the-request
-            res is Ok ==> exists|a: Action| #![trigger a.period()] a.period() == Some(dur_ns(period)) && accepted(old(self).scheduler_queue.view(), final(self).scheduler_queue.view(), entry_of((deadline.into_time_spec(MonotonicTime { t: old(self).time.val() }), origin_id), a)),   //@ C10 #queued-with-the-requested-period
-            res matches Ok(k) ==> exists|a: Action| #![trigger a.period()] a.key_id() == Some(k.id()) && a.model_rechecks_key() && accepted(old(self).scheduler_queue.view(), final(self).scheduler_queue.view(), entry_of((deadline.into_time_spec(MonotonicTime { t: old(self).time.val() }), origin_id), a)),   //@ C09 #returned-key-cancels-the-queued-action-up-to-the-model
+            res is Ok ==> exists|a: Action, o: usize| #![trigger entry_of((deadline.into_time_spec(MonotonicTime { t: old(self).time.val() }), o), a)] accepted(old(self).scheduler_queue.view(), final(self).scheduler_queue.view(), entry_of((deadline.into_time_spec(MonotonicTime { t: old(self).time.val() }), o), a)),   //@ C08,C01 #queued-at-its-deadline
+            res is Ok ==> exists|a: Action, t: MonotonicTime| #![trigger entry_of((t, origin_id), a)] accepted(old(self).scheduler_queue.view(), final(self).scheduler_queue.view(), entry_of((t, origin_id), a)),   //@ C07 #queued-under-its-origin
+            res is Ok ==> exists|a: Action, qk: (MonotonicTime, usize)| #![trigger entry_of(qk, a)] a.period() == Some(dur_ns(period)) && accepted(old(self).scheduler_queue.view(), final(self).scheduler_queue.view(), entry_of(qk, a)),   //@ C10 #queued-with-the-requested-period
+            res matches Ok(k) ==> exists|a: Action, qk: (MonotonicTime, usize)| #![trigger entry_of(qk, a)] a.key_id() == Some(k.id()) && a.model_rechecks_key() && accepted(old(self).scheduler_queue.view(), final(self).scheduler_queue.view(), entry_of(qk, a)),   //@ C09 #returned-key-cancels-the-queued-action-up-to-the-model
             (deadline.into_time_spec(MonotonicTime { t: old(self).time.val() }).t > old(self).time.val() && dur_ns(period) != 0) ==> res is Ok,   //@ C08 #valid-request-accepted
             sorted(final(self).scheduler_queue.view()),
             all_later(final(self).scheduler_queue.view(), final(self).time.val()),                                //@ C01 #pending-strictly-later
@@ -457,7 +460,6 @@ impl GlobalScheduler {
         //@[
         proof {
             lemma_insert_keeps_inv(q0, self.scheduler_queue.view(), entry_of((time, origin_id), action), self.time.val());
-            assert(accepted(q0, self.scheduler_queue.view(), entry_of((time, origin_id), action)));
         }
         //@]
 
@@ -479,7 +481,8 @@ impl Scheduler {
             res is Ok ==> deadline.into_time_spec(MonotonicTime { t: old(self).0.time.val() }).t > old(self).0.time.val(),      //@ C08,C01 #deadline-strictly-in-the-future
             res is Ok ==> action.period() != Some(0nat),                                                       //@ C08 #period-non-zero
             // requests made through the Scheduler handle carry the global origin                               (C07)
-            res is Ok ==> accepted(old(self).0.scheduler_queue.view(), final(self).0.scheduler_queue.view(), entry_of((deadline.into_time_spec(MonotonicTime { t: old(self).0.time.val() }), GLOBAL_SCHEDULER_ORIGIN_ID), action)),   //@ C07,C08,C01 #queued-with-the-global-origin
+            res is Ok ==> exists|o: usize| #![trigger entry_of((deadline.into_time_spec(MonotonicTime { t: old(self).0.time.val() }), o), action)] accepted(old(self).0.scheduler_queue.view(), final(self).0.scheduler_queue.view(), entry_of((deadline.into_time_spec(MonotonicTime { t: old(self).0.time.val() }), o), action)),   //@ C08,C01 #queued-at-its-deadline
+            res is Ok ==> exists|t: MonotonicTime| #![trigger entry_of((t, GLOBAL_SCHEDULER_ORIGIN_ID), action)] accepted(old(self).0.scheduler_queue.view(), final(self).0.scheduler_queue.view(), entry_of((t, GLOBAL_SCHEDULER_ORIGIN_ID), action)),   //@ C07 #queued-with-the-global-origin
             queue_inv(final(self).0.scheduler_queue.view(), final(self).0.time.val()),
         //@]
     {
@@ -509,8 +512,9 @@ impl Scheduler {
             res is Err ==> final(self).0.scheduler_queue.view() == old(self).0.scheduler_queue.view(),                                        //@ C08 #rejected-has-no-effect
             res is Ok ==> deadline.into_time_spec(MonotonicTime { t: old(self).0.time.val() }).t > old(self).0.time.val(),      //@ C08,C01 #deadline-strictly-in-the-future
             // requests made through the Scheduler handle carry the global origin                               (C07)
-            res is Ok ==> exists|a: Action| #![trigger a.period()] accepted(old(self).0.scheduler_queue.view(), final(self).0.scheduler_queue.view(), entry_of((deadline.into_time_spec(MonotonicTime { t: old(self).0.time.val() }), GLOBAL_SCHEDULER_ORIGIN_ID), a)),   //@ C07,C08,C01 #queued-with-the-global-origin
-            res is Ok ==> exists|a: Action| #![trigger a.period()] a.period() == None::<nat> && accepted(old(self).0.scheduler_queue.view(), final(self).0.scheduler_queue.view(), entry_of((deadline.into_time_spec(MonotonicTime { t: old(self).0.time.val() }), GLOBAL_SCHEDULER_ORIGIN_ID), a)),   //@ C10 #queued-with-the-requested-period
+            res is Ok ==> exists|a: Action, o: usize| #![trigger entry_of((deadline.into_time_spec(MonotonicTime { t: old(self).0.time.val() }), o), a)] accepted(old(self).0.scheduler_queue.view(), final(self).0.scheduler_queue.view(), entry_of((deadline.into_time_spec(MonotonicTime { t: old(self).0.time.val() }), o), a)),   //@ C08,C01 #queued-at-its-deadline
+            res is Ok ==> exists|a: Action, t: MonotonicTime| #![trigger entry_of((t, GLOBAL_SCHEDULER_ORIGIN_ID), a)] accepted(old(self).0.scheduler_queue.view(), final(self).0.scheduler_queue.view(), entry_of((t, GLOBAL_SCHEDULER_ORIGIN_ID), a)),   //@ C07 #queued-with-the-global-origin
+            res is Ok ==> exists|a: Action, qk: (MonotonicTime, usize)| #![trigger entry_of(qk, a)] a.period() == None::<nat> && accepted(old(self).0.scheduler_queue.view(), final(self).0.scheduler_queue.view(), entry_of(qk, a)),   //@ C10 #queued-with-the-requested-period
             queue_inv(final(self).0.scheduler_queue.view(), final(self).0.time.val()),
         //@]
     {
@@ -540,9 +544,10 @@ impl Scheduler {
             res is Err ==> final(self).0.scheduler_queue.view() == old(self).0.scheduler_queue.view(),                                        //@ C08 #rejected-has-no-effect
             res is Ok ==> deadline.into_time_spec(MonotonicTime { t: old(self).0.time.val() }).t > old(self).0.time.val(),      //@ C08,C01 #deadline-strictly-in-the-future
             // requests made through the Scheduler handle carry the global origin                               (C07)
-            res is Ok ==> exists|a: Action| #![trigger a.period()] accepted(old(self).0.scheduler_queue.view(), final(self).0.scheduler_queue.view(), entry_of((deadline.into_time_spec(MonotonicTime { t: old(self).0.time.val() }), GLOBAL_SCHEDULER_ORIGIN_ID), a)),   //@ C07,C08,C01 #queued-with-the-global-origin
-            res is Ok ==> exists|a: Action| #![trigger a.period()] a.period() == None::<nat> && accepted(old(self).0.scheduler_queue.view(), final(self).0.scheduler_queue.view(), entry_of((deadline.into_time_spec(MonotonicTime { t: old(self).0.time.val() }), GLOBAL_SCHEDULER_ORIGIN_ID), a)),   //@ C10 #queued-with-the-requested-period
-            res matches Ok(k) ==> exists|a: Action| #![trigger a.period()] a.key_id() == Some(k.id()) && accepted(old(self).0.scheduler_queue.view(), final(self).0.scheduler_queue.view(), entry_of((deadline.into_time_spec(MonotonicTime { t: old(self).0.time.val() }), GLOBAL_SCHEDULER_ORIGIN_ID), a)),   //@ C09 #returned-key-cancels-the-queued-action
+            res is Ok ==> exists|a: Action, o: usize| #![trigger entry_of((deadline.into_time_spec(MonotonicTime { t: old(self).0.time.val() }), o), a)] accepted(old(self).0.scheduler_queue.view(), final(self).0.scheduler_queue.view(), entry_of((deadline.into_time_spec(MonotonicTime { t: old(self).0.time.val() }), o), a)),   //@ C08,C01 #queued-at-its-deadline
+            res is Ok ==> exists|a: Action, t: MonotonicTime| #![trigger entry_of((t, GLOBAL_SCHEDULER_ORIGIN_ID), a)] accepted(old(self).0.scheduler_queue.view(), final(self).0.scheduler_queue.view(), entry_of((t, GLOBAL_SCHEDULER_ORIGIN_ID), a)),   //@ C07 #queued-with-the-global-origin
+            res is Ok ==> exists|a: Action, qk: (MonotonicTime, usize)| #![trigger entry_of(qk, a)] a.period() == None::<nat> && accepted(old(self).0.scheduler_queue.view(), final(self).0.scheduler_queue.view(), entry_of(qk, a)),   //@ C10 #queued-with-the-requested-period
+            res matches Ok(k) ==> exists|a: Action, qk: (MonotonicTime, usize)| #![trigger entry_of(qk, a)] a.key_id() == Some(k.id()) && accepted(old(self).0.scheduler_queue.view(), final(self).0.scheduler_queue.view(), entry_of(qk, a)),   //@ C09 #returned-key-cancels-the-queued-action
             queue_inv(final(self).0.scheduler_queue.view(), final(self).0.time.val()),
         //@]
     {
@@ -574,8 +579,9 @@ impl Scheduler {
             res is Ok ==> deadline.into_time_spec(MonotonicTime { t: old(self).0.time.val() }).t > old(self).0.time.val(),      //@ C08,C01 #deadline-strictly-in-the-future
             res is Ok ==> dur_ns(period) != 0,                                                                 //@ C08 #period-non-zero
             // requests made through the Scheduler handle carry the global origin                               (C07)
-            res is Ok ==> exists|a: Action| #![trigger a.period()] accepted(old(self).0.scheduler_queue.view(), final(self).0.scheduler_queue.view(), entry_of((deadline.into_time_spec(MonotonicTime { t: old(self).0.time.val() }), GLOBAL_SCHEDULER_ORIGIN_ID), a)),   //@ C07,C08,C01 #queued-with-the-global-origin
-            res is Ok ==> exists|a: Action| #![trigger a.period()] a.period() == Some(dur_ns(period)) && accepted(old(self).0.scheduler_queue.view(), final(self).0.scheduler_queue.view(), entry_of((deadline.into_time_spec(MonotonicTime { t: old(self).0.time.val() }), GLOBAL_SCHEDULER_ORIGIN_ID), a)),   //@ C10 #queued-with-the-requested-period
+            res is Ok ==> exists|a: Action, o: usize| #![trigger entry_of((deadline.into_time_spec(MonotonicTime { t: old(self).0.time.val() }), o), a)] accepted(old(self).0.scheduler_queue.view(), final(self).0.scheduler_queue.view(), entry_of((deadline.into_time_spec(MonotonicTime { t: old(self).0.time.val() }), o), a)),   //@ C08,C01 #queued-at-its-deadline
+            res is Ok ==> exists|a: Action, t: MonotonicTime| #![trigger entry_of((t, GLOBAL_SCHEDULER_ORIGIN_ID), a)] accepted(old(self).0.scheduler_queue.view(), final(self).0.scheduler_queue.view(), entry_of((t, GLOBAL_SCHEDULER_ORIGIN_ID), a)),   //@ C07 #queued-with-the-global-origin
+            res is Ok ==> exists|a: Action, qk: (MonotonicTime, usize)| #![trigger entry_of(qk, a)] a.period() == Some(dur_ns(period)) && accepted(old(self).0.scheduler_queue.view(), final(self).0.scheduler_queue.view(), entry_of(qk, a)),   //@ C10 #queued-with-the-requested-period
             queue_inv(final(self).0.scheduler_queue.view(), final(self).0.time.val()),
         //@]
     {
@@ -613,9 +619,10 @@ impl Scheduler {
             res is Ok ==> deadline.into_time_spec(MonotonicTime { t: old(self).0.time.val() }).t > old(self).0.time.val(),      //@ C08,C01 #deadline-strictly-in-the-future
             res is Ok ==> dur_ns(period) != 0,                                                                 //@ C08 #period-non-zero
             // requests made through the Scheduler handle carry the global origin                               (C07)
-            res is Ok ==> exists|a: Action| #![trigger a.period()] accepted(old(self).0.scheduler_queue.view(), final(self).0.scheduler_queue.view(), entry_of((deadline.into_time_spec(MonotonicTime { t: old(self).0.time.val() }), GLOBAL_SCHEDULER_ORIGIN_ID), a)),   //@ C07,C08,C01 #queued-with-the-global-origin
-            res is Ok ==> exists|a: Action| #![trigger a.period()] a.period() == Some(dur_ns(period)) && accepted(old(self).0.scheduler_queue.view(), final(self).0.scheduler_queue.view(), entry_of((deadline.into_time_spec(MonotonicTime { t: old(self).0.time.val() }), GLOBAL_SCHEDULER_ORIGIN_ID), a)),   //@ C10 #queued-with-the-requested-period
-            res matches Ok(k) ==> exists|a: Action| #![trigger a.period()] a.key_id() == Some(k.id()) && accepted(old(self).0.scheduler_queue.view(), final(self).0.scheduler_queue.view(), entry_of((deadline.into_time_spec(MonotonicTime { t: old(self).0.time.val() }), GLOBAL_SCHEDULER_ORIGIN_ID), a)),   //@ C09 #returned-key-cancels-the-queued-action
+            res is Ok ==> exists|a: Action, o: usize| #![trigger entry_of((deadline.into_time_spec(MonotonicTime { t: old(self).0.time.val() }), o), a)] accepted(old(self).0.scheduler_queue.view(), final(self).0.scheduler_queue.view(), entry_of((deadline.into_time_spec(MonotonicTime { t: old(self).0.time.val() }), o), a)),   //@ C08,C01 #queued-at-its-deadline
+            res is Ok ==> exists|a: Action, t: MonotonicTime| #![trigger entry_of((t, GLOBAL_SCHEDULER_ORIGIN_ID), a)] accepted(old(self).0.scheduler_queue.view(), final(self).0.scheduler_queue.view(), entry_of((t, GLOBAL_SCHEDULER_ORIGIN_ID), a)),   //@ C07 #queued-with-the-global-origin
+            res is Ok ==> exists|a: Action, qk: (MonotonicTime, usize)| #![trigger entry_of(qk, a)] a.period() == Some(dur_ns(period)) && accepted(old(self).0.scheduler_queue.view(), final(self).0.scheduler_queue.view(), entry_of(qk, a)),   //@ C10 #queued-with-the-requested-period
+            res matches Ok(k) ==> exists|a: Action, qk: (MonotonicTime, usize)| #![trigger entry_of(qk, a)] a.key_id() == Some(k.id()) && accepted(old(self).0.scheduler_queue.view(), final(self).0.scheduler_queue.view(), entry_of(qk, a)),   //@ C09 #returned-key-cancels-the-queued-action
             queue_inv(final(self).0.scheduler_queue.view(), final(self).0.time.val()),
         //@]
     {
@@ -697,8 +704,9 @@ impl<M: Model> Context<M> {
             res is Err ==> final(self).scheduler.scheduler_queue.view() == old(self).scheduler.scheduler_queue.view(),                                        //@ C08 #rejected-has-no-effect
             res is Ok ==> deadline.into_time_spec(MonotonicTime { t: old(self).scheduler.time.val() }).t > old(self).scheduler.time.val(),      //@ C08,C01 #deadline-strictly-in-the-future
             // requests made through a model's context carry that model's origin id                              (C07)
-            res is Ok ==> exists|a: Action| #![trigger a.period()] accepted(old(self).scheduler.scheduler_queue.view(), final(self).scheduler.scheduler_queue.view(), entry_of((deadline.into_time_spec(MonotonicTime { t: old(self).scheduler.time.val() }), old(self).origin_id), a)),   //@ C07,C08,C01 #queued-with-the-models-origin
-            res is Ok ==> exists|a: Action| #![trigger a.period()] a.period() == None::<nat> && accepted(old(self).scheduler.scheduler_queue.view(), final(self).scheduler.scheduler_queue.view(), entry_of((deadline.into_time_spec(MonotonicTime { t: old(self).scheduler.time.val() }), old(self).origin_id), a)),   //@ C10 #queued-with-the-requested-period
+            res is Ok ==> exists|a: Action, o: usize| #![trigger entry_of((deadline.into_time_spec(MonotonicTime { t: old(self).scheduler.time.val() }), o), a)] accepted(old(self).scheduler.scheduler_queue.view(), final(self).scheduler.scheduler_queue.view(), entry_of((deadline.into_time_spec(MonotonicTime { t: old(self).scheduler.time.val() }), o), a)),   //@ C08,C01 #queued-at-its-deadline
+            res is Ok ==> exists|a: Action, t: MonotonicTime| #![trigger entry_of((t, old(self).origin_id), a)] accepted(old(self).scheduler.scheduler_queue.view(), final(self).scheduler.scheduler_queue.view(), entry_of((t, old(self).origin_id), a)),   //@ C07 #queued-with-the-models-origin
+            res is Ok ==> exists|a: Action, qk: (MonotonicTime, usize)| #![trigger entry_of(qk, a)] a.period() == None::<nat> && accepted(old(self).scheduler.scheduler_queue.view(), final(self).scheduler.scheduler_queue.view(), entry_of(qk, a)),   //@ C10 #queued-with-the-requested-period
             queue_inv(final(self).scheduler.scheduler_queue.view(), final(self).scheduler.time.val()),
         //@]
     {
@@ -726,9 +734,10 @@ impl<M: Model> Context<M> {
             res is Err ==> final(self).scheduler.scheduler_queue.view() == old(self).scheduler.scheduler_queue.view(),                                        //@ C08 #rejected-has-no-effect
             res is Ok ==> deadline.into_time_spec(MonotonicTime { t: old(self).scheduler.time.val() }).t > old(self).scheduler.time.val(),      //@ C08,C01 #deadline-strictly-in-the-future
             // requests made through a model's context carry that model's origin id                              (C07)
-            res is Ok ==> exists|a: Action| #![trigger a.period()] accepted(old(self).scheduler.scheduler_queue.view(), final(self).scheduler.scheduler_queue.view(), entry_of((deadline.into_time_spec(MonotonicTime { t: old(self).scheduler.time.val() }), old(self).origin_id), a)),   //@ C07,C08,C01 #queued-with-the-models-origin
-            res is Ok ==> exists|a: Action| #![trigger a.period()] a.period() == None::<nat> && accepted(old(self).scheduler.scheduler_queue.view(), final(self).scheduler.scheduler_queue.view(), entry_of((deadline.into_time_spec(MonotonicTime { t: old(self).scheduler.time.val() }), old(self).origin_id), a)),   //@ C10 #queued-with-the-requested-period
-            res matches Ok(k) ==> exists|a: Action| #![trigger a.period()] a.key_id() == Some(k.id()) && accepted(old(self).scheduler.scheduler_queue.view(), final(self).scheduler.scheduler_queue.view(), entry_of((deadline.into_time_spec(MonotonicTime { t: old(self).scheduler.time.val() }), old(self).origin_id), a)),   //@ C09 #returned-key-cancels-the-queued-action
+            res is Ok ==> exists|a: Action, o: usize| #![trigger entry_of((deadline.into_time_spec(MonotonicTime { t: old(self).scheduler.time.val() }), o), a)] accepted(old(self).scheduler.scheduler_queue.view(), final(self).scheduler.scheduler_queue.view(), entry_of((deadline.into_time_spec(MonotonicTime { t: old(self).scheduler.time.val() }), o), a)),   //@ C08,C01 #queued-at-its-deadline
+            res is Ok ==> exists|a: Action, t: MonotonicTime| #![trigger entry_of((t, old(self).origin_id), a)] accepted(old(self).scheduler.scheduler_queue.view(), final(self).scheduler.scheduler_queue.view(), entry_of((t, old(self).origin_id), a)),   //@ C07 #queued-with-the-models-origin
+            res is Ok ==> exists|a: Action, qk: (MonotonicTime, usize)| #![trigger entry_of(qk, a)] a.period() == None::<nat> && accepted(old(self).scheduler.scheduler_queue.view(), final(self).scheduler.scheduler_queue.view(), entry_of(qk, a)),   //@ C10 #queued-with-the-requested-period
+            res matches Ok(k) ==> exists|a: Action, qk: (MonotonicTime, usize)| #![trigger entry_of(qk, a)] a.key_id() == Some(k.id()) && accepted(old(self).scheduler.scheduler_queue.view(), final(self).scheduler.scheduler_queue.view(), entry_of(qk, a)),   //@ C09 #returned-key-cancels-the-queued-action
             queue_inv(final(self).scheduler.scheduler_queue.view(), final(self).scheduler.time.val()),
         //@]
     {
@@ -765,8 +774,9 @@ impl<M: Model> Context<M> {
             res is Ok ==> deadline.into_time_spec(MonotonicTime { t: old(self).scheduler.time.val() }).t > old(self).scheduler.time.val(),      //@ C08,C01 #deadline-strictly-in-the-future
             res is Ok ==> dur_ns(period) != 0,                                                                 //@ C08 #period-non-zero
             // requests made through a model's context carry that model's origin id                              (C07)
-            res is Ok ==> exists|a: Action| #![trigger a.period()] accepted(old(self).scheduler.scheduler_queue.view(), final(self).scheduler.scheduler_queue.view(), entry_of((deadline.into_time_spec(MonotonicTime { t: old(self).scheduler.time.val() }), old(self).origin_id), a)),   //@ C07,C08,C01 #queued-with-the-models-origin
-            res is Ok ==> exists|a: Action| #![trigger a.period()] a.period() == Some(dur_ns(period)) && accepted(old(self).scheduler.scheduler_queue.view(), final(self).scheduler.scheduler_queue.view(), entry_of((deadline.into_time_spec(MonotonicTime { t: old(self).scheduler.time.val() }), old(self).origin_id), a)),   //@ C10 #queued-with-the-requested-period
+            res is Ok ==> exists|a: Action, o: usize| #![trigger entry_of((deadline.into_time_spec(MonotonicTime { t: old(self).scheduler.time.val() }), o), a)] accepted(old(self).scheduler.scheduler_queue.view(), final(self).scheduler.scheduler_queue.view(), entry_of((deadline.into_time_spec(MonotonicTime { t: old(self).scheduler.time.val() }), o), a)),   //@ C08,C01 #queued-at-its-deadline
+            res is Ok ==> exists|a: Action, t: MonotonicTime| #![trigger entry_of((t, old(self).origin_id), a)] accepted(old(self).scheduler.scheduler_queue.view(), final(self).scheduler.scheduler_queue.view(), entry_of((t, old(self).origin_id), a)),   //@ C07 #queued-with-the-models-origin
+            res is Ok ==> exists|a: Action, qk: (MonotonicTime, usize)| #![trigger entry_of(qk, a)] a.period() == Some(dur_ns(period)) && accepted(old(self).scheduler.scheduler_queue.view(), final(self).scheduler.scheduler_queue.view(), entry_of(qk, a)),   //@ C10 #queued-with-the-requested-period
             queue_inv(final(self).scheduler.scheduler_queue.view(), final(self).scheduler.time.val()),
         //@]
     {
@@ -802,9 +812,10 @@ impl<M: Model> Context<M> {
             res is Ok ==> deadline.into_time_spec(MonotonicTime { t: old(self).scheduler.time.val() }).t > old(self).scheduler.time.val(),      //@ C08,C01 #deadline-strictly-in-the-future
             res is Ok ==> dur_ns(period) != 0,                                                                 //@ C08 #period-non-zero
             // requests made through a model's context carry that model's origin id                              (C07)
-            res is Ok ==> exists|a: Action| #![trigger a.period()] accepted(old(self).scheduler.scheduler_queue.view(), final(self).scheduler.scheduler_queue.view(), entry_of((deadline.into_time_spec(MonotonicTime { t: old(self).scheduler.time.val() }), old(self).origin_id), a)),   //@ C07,C08,C01 #queued-with-the-models-origin
-            res is Ok ==> exists|a: Action| #![trigger a.period()] a.period() == Some(dur_ns(period)) && accepted(old(self).scheduler.scheduler_queue.view(), final(self).scheduler.scheduler_queue.view(), entry_of((deadline.into_time_spec(MonotonicTime { t: old(self).scheduler.time.val() }), old(self).origin_id), a)),   //@ C10 #queued-with-the-requested-period
-            res matches Ok(k) ==> exists|a: Action| #![trigger a.period()] a.key_id() == Some(k.id()) && accepted(old(self).scheduler.scheduler_queue.view(), final(self).scheduler.scheduler_queue.view(), entry_of((deadline.into_time_spec(MonotonicTime { t: old(self).scheduler.time.val() }), old(self).origin_id), a)),   //@ C09 #returned-key-cancels-the-queued-action
+            res is Ok ==> exists|a: Action, o: usize| #![trigger entry_of((deadline.into_time_spec(MonotonicTime { t: old(self).scheduler.time.val() }), o), a)] accepted(old(self).scheduler.scheduler_queue.view(), final(self).scheduler.scheduler_queue.view(), entry_of((deadline.into_time_spec(MonotonicTime { t: old(self).scheduler.time.val() }), o), a)),   //@ C08,C01 #queued-at-its-deadline
+            res is Ok ==> exists|a: Action, t: MonotonicTime| #![trigger entry_of((t, old(self).origin_id), a)] accepted(old(self).scheduler.scheduler_queue.view(), final(self).scheduler.scheduler_queue.view(), entry_of((t, old(self).origin_id), a)),   //@ C07 #queued-with-the-models-origin
+            res is Ok ==> exists|a: Action, qk: (MonotonicTime, usize)| #![trigger entry_of(qk, a)] a.period() == Some(dur_ns(period)) && accepted(old(self).scheduler.scheduler_queue.view(), final(self).scheduler.scheduler_queue.view(), entry_of(qk, a)),   //@ C10 #queued-with-the-requested-period
+            res matches Ok(k) ==> exists|a: Action, qk: (MonotonicTime, usize)| #![trigger entry_of(qk, a)] a.key_id() == Some(k.id()) && accepted(old(self).scheduler.scheduler_queue.view(), final(self).scheduler.scheduler_queue.view(), entry_of(qk, a)),   //@ C09 #returned-key-cancels-the-queued-action
             queue_inv(final(self).scheduler.scheduler_queue.view(), final(self).scheduler.time.val()),
         //@]
     {
